@@ -261,8 +261,9 @@ PROPS = {
         "harnesses": ["me"], "lake_targets": ["GcpVerif"],
         "theorems": me_thms(["c13_mem_holds", "c13_mem_init", "c13_unavail_excluded_holds", "c13_noavail_holds", "c13_empty_holds", "reach_inv"]) +
                     [("GcpVerif.Proofs.ME2", "GcpVerif.ME." + n) for n in ["c13_switch_top_holds", "c13_d0_holds", "reach_J", "reach_K", "nextCur_d0", "nextCur_idem"]] +
-                    [("GcpVerif.Proofs.ME6", "GcpVerif.ME." + n) for n in ["status_matches_reports", "status_matches_reports_run", "reach_sinv", "fire_av"]],
-        "leanchecker": ["GcpVerif.Proofs.ME", "GcpVerif.Proofs.ME2", "GcpVerif.Proofs.ME6"],
+                    [("GcpVerif.Proofs.ME6", "GcpVerif.ME." + n) for n in ["status_matches_reports", "status_matches_reports_run", "reach_sinv", "fire_av"]] +
+                    [("GcpVerif.Proofs.ME7", "GcpVerif.ME." + n) for n in ["list_and_priorities", "setEndpoints_list", "init_list", "vw_step", "reach_ids_nodup"]],
+        "leanchecker": ["GcpVerif.Proofs.ME", "GcpVerif.Proofs.ME2", "GcpVerif.Proofs.ME6", "GcpVerif.Proofs.ME7"],
         "trusted_base": ME_TB,
         "assumptions": ["0 <= RecoveryTimeout and 0 <= SwitchingDelay (negative durations are covered by the correspondence only)"],
     },
@@ -273,8 +274,9 @@ PROPS = {
                      ("GcpVerif.Proofs.ME3", "GcpVerif.ME.reach_tinv"),
                      ("GcpVerif.Proofs.ME4", "GcpVerif.ME.c14_cancel_holds"), ("GcpVerif.Proofs.ME4", "GcpVerif.ME.c14_converged_holds"),
                      ("GcpVerif.Proofs.ME4", "GcpVerif.ME.reach_V"),
-                     ("GcpVerif.Proofs.ME6", "GcpVerif.ME.recovery_not_cut_short"), ("GcpVerif.Proofs.ME6", "GcpVerif.ME.reach_sinv")],
-        "leanchecker": ["GcpVerif.Proofs.ME", "GcpVerif.Proofs.ME2", "GcpVerif.Proofs.ME3", "GcpVerif.Proofs.ME4", "GcpVerif.Proofs.ME6"],
+                     ("GcpVerif.Proofs.ME6", "GcpVerif.ME.recovery_not_cut_short"), ("GcpVerif.Proofs.ME6", "GcpVerif.ME.reach_sinv"),
+                     ("GcpVerif.Proofs.ME7", "GcpVerif.ME.recovering_timer_count")],
+        "leanchecker": ["GcpVerif.Proofs.ME", "GcpVerif.Proofs.ME2", "GcpVerif.Proofs.ME3", "GcpVerif.Proofs.ME4", "GcpVerif.Proofs.ME6", "GcpVerif.Proofs.ME7"],
         "trusted_base": ME_TB,
         "assumptions": ["0 <= RecoveryTimeout and 0 <= SwitchingDelay (negative durations are covered by the correspondence only)"],
     },
